@@ -169,7 +169,8 @@ EXTRA_NATIVES = [
     (re.compile(r"<(?:std::vec::)?Vec<.*> as (?:std::ops::)?Index(?:Mut)?<usize>>::index(?:_mut)?|<\[.*\] as (?:std::ops::)?Index(?:Mut)?<usize>>::index(?:_mut)?"), n_vec_index_mut),
     (re.compile(r"Chiplets::advance_clock"), pm.n_unit),
     (re.compile(r"Stack::advance_clock"), lambda i, a, d, m: stack_advance(i, a)),
-    (re.compile(r"Stack::ensure_trace_capacity|system::System::ensure_trace_capacity|System::ensure_trace_capacity"), pm.n_unit),
+    (re.compile(r"Stack::ensure_trace_capacity|system::System::ensure_trace_capacity|System::ensure_trace_capacity"),
+     lambda i, a, d, m: (i.events.append(("capacity", m.group(0))), UNIT)[1]),
 ]
 
 
@@ -177,6 +178,7 @@ def stack_advance(interp, args):
     """Stack::advance_clock: the row written for clk+1 becomes the current row"""
     s = pm.deref(args[0])
     s.advanced = True
+    interp.events.append(("stack", "advance_clock"))
     if not getattr(s, "multi_step", False):
         return UNIT
     if any(x is None for x in s.next):
